@@ -120,6 +120,8 @@ impl AtomicBuffer {
     /// Sets length of the "view" buffer to "len"
     #[inline]
     pub fn view(&self, offset: Index, len: Index) -> Self {
+        #[cfg(unitedtraders_aeron_rs_verif)]
+        let _verif = crate::verif_hook::enter(crate::verif_hook::AccessKind::View, self.ptr as usize + offset as usize, len as usize, 0, 0);
         self.bounds_check(offset, len);
 
         Self {
@@ -139,18 +141,24 @@ impl AtomicBuffer {
 
     #[inline]
     pub fn get<T: Copy>(&self, position: Index) -> T {
+        #[cfg(unitedtraders_aeron_rs_verif)]
+        let _verif = crate::verif_hook::enter(crate::verif_hook::AccessKind::Get, self.ptr as usize + position as usize, std::mem::size_of::<T>(), 0, 0);
         self.bounds_check(position, std::mem::size_of::<T>() as Index);
         unsafe { (self.at(position) as *mut T).read_unaligned() }
     }
 
     #[inline]
     pub fn overlay_struct<T>(&self, position: Index) -> *mut T {
+        #[cfg(unitedtraders_aeron_rs_verif)]
+        let _verif = crate::verif_hook::enter(crate::verif_hook::AccessKind::RegionWrite, self.ptr as usize + position as usize, std::mem::size_of::<T>(), 0, 0);
         self.bounds_check(position, std::mem::size_of::<T>() as Index);
         unsafe { self.at(position) as *mut T }
     }
 
     #[inline]
     pub fn as_ref<T: Copy>(&self, position: Index) -> &T {
+        #[cfg(unitedtraders_aeron_rs_verif)]
+        let _verif = crate::verif_hook::enter(crate::verif_hook::AccessKind::RegionRead, self.ptr as usize + position as usize, std::mem::size_of::<T>(), 0, 0);
         self.bounds_check(position, std::mem::size_of::<T>() as Index);
         unsafe { &*(self.at(position) as *const T) }
     }
@@ -162,6 +170,8 @@ impl AtomicBuffer {
 
     #[inline]
     pub fn set_memory(&self, position: Index, len: Index, value: u8) {
+        #[cfg(unitedtraders_aeron_rs_verif)]
+        let _verif = crate::verif_hook::enter(crate::verif_hook::AccessKind::SetMemory, self.ptr as usize + position as usize, len as usize, value as i64, 0);
         self.bounds_check(position, len);
         let slice = unsafe { slice::from_raw_parts_mut(self.ptr.offset(position as isize), len as usize) };
 
@@ -173,6 +183,8 @@ impl AtomicBuffer {
 
     #[inline]
     pub fn get_volatile<T: Copy>(&self, position: Index) -> T {
+        #[cfg(unitedtraders_aeron_rs_verif)]
+        let _verif = crate::verif_hook::enter(crate::verif_hook::AccessKind::GetVolatile, self.ptr as usize + position as usize, std::mem::size_of::<T>(), 0, 0);
         self.bounds_check(position, std::mem::size_of::<T>() as Index);
         let read = self.get(position);
         fence(Ordering::Acquire);
@@ -181,6 +193,8 @@ impl AtomicBuffer {
 
     #[inline]
     pub fn put_ordered<T>(&self, position: Index, val: T) {
+        #[cfg(unitedtraders_aeron_rs_verif)]
+        let _verif = crate::verif_hook::enter(crate::verif_hook::AccessKind::PutOrdered, self.ptr as usize + position as usize, std::mem::size_of::<T>(), crate::verif_hook::bits_of(&val), 0);
         self.bounds_check(position, std::mem::size_of::<T>() as Index);
         fence(Ordering::Release);
         self.put(position, val);
@@ -188,6 +202,8 @@ impl AtomicBuffer {
 
     #[inline]
     pub fn put<T>(&self, position: Index, val: T) {
+        #[cfg(unitedtraders_aeron_rs_verif)]
+        let _verif = crate::verif_hook::enter(crate::verif_hook::AccessKind::Put, self.ptr as usize + position as usize, std::mem::size_of::<T>(), crate::verif_hook::bits_of(&val), 0);
         self.bounds_check(position, std::mem::size_of::<T>() as Index);
         unsafe { (self.at(position) as *mut T).write_unaligned(val) }
     }
@@ -195,6 +211,8 @@ impl AtomicBuffer {
     #[inline]
     #[allow(clippy::cast_ptr_alignment)]
     pub fn put_atomic_i64(&self, offset: Index, val: i64) {
+        #[cfg(unitedtraders_aeron_rs_verif)]
+        let _verif = crate::verif_hook::enter(crate::verif_hook::AccessKind::PutAtomicI64, self.ptr as usize + offset as usize, 8, val, 0);
         self.bounds_check(offset, I64_SIZE);
         unsafe {
             let atomic_ptr = self.at(offset) as *const AtomicI64;
@@ -205,6 +223,8 @@ impl AtomicBuffer {
     #[inline]
     #[allow(clippy::cast_ptr_alignment)]
     pub fn compare_and_set_i32(&self, position: Index, expected: i32, update: i32) -> bool {
+        #[cfg(unitedtraders_aeron_rs_verif)]
+        let _verif = crate::verif_hook::enter(crate::verif_hook::AccessKind::CompareAndSetI32, self.ptr as usize + position as usize, 4, expected as i64, update as i64);
         self.bounds_check(position, I32_SIZE);
         unsafe {
             let ptr = self.at(position) as *const AtomicI32;
@@ -217,6 +237,8 @@ impl AtomicBuffer {
     #[inline]
     #[allow(clippy::cast_ptr_alignment)]
     pub fn compare_and_set_i64(&self, position: Index, expected: i64, update: i64) -> bool {
+        #[cfg(unitedtraders_aeron_rs_verif)]
+        let _verif = crate::verif_hook::enter(crate::verif_hook::AccessKind::CompareAndSetI64, self.ptr as usize + position as usize, 8, expected, update);
         self.bounds_check(position, I64_SIZE);
         unsafe {
             let ptr = self.at(position) as *const AtomicI64;
@@ -233,6 +255,8 @@ impl AtomicBuffer {
      * @param delta  for to be applied to the value.
      */
     pub fn add_i64_ordered(&self, offset: Index, delta: i64) {
+        #[cfg(unitedtraders_aeron_rs_verif)]
+        let _verif = crate::verif_hook::enter(crate::verif_hook::AccessKind::AddI64Ordered, self.ptr as usize + offset as usize, 8, delta, 0);
         self.bounds_check(offset, I64_SIZE);
 
         let value = self.get::<i64>(offset);
@@ -242,6 +266,8 @@ impl AtomicBuffer {
     /// Put bytes in to this buffer at specified offset
     #[inline]
     pub fn put_bytes(&self, offset: Index, src: &[u8]) {
+        #[cfg(unitedtraders_aeron_rs_verif)]
+        let _verif = crate::verif_hook::enter(crate::verif_hook::AccessKind::PutBytes, self.ptr as usize + offset as usize, src.len(), src.as_ptr() as i64, 0);
         self.bounds_check(offset, src.len() as Index);
 
         unsafe {
@@ -252,6 +278,8 @@ impl AtomicBuffer {
 
     #[inline]
     pub fn get_bytes<T>(&self, offset: Index, dest: &mut T) {
+        #[cfg(unitedtraders_aeron_rs_verif)]
+        let _verif = crate::verif_hook::enter(crate::verif_hook::AccessKind::GetBytes, self.ptr as usize + offset as usize, std::mem::size_of::<T>(), 0, 0);
         let length = std::mem::size_of::<T>();
         self.bounds_check(offset, length as Index);
 
@@ -268,6 +296,8 @@ impl AtomicBuffer {
     /// length - number of bytes to copy
     #[inline]
     pub fn copy_from(&self, offset: Index, src_buffer: &AtomicBuffer, src_offset: Index, length: Index) {
+        #[cfg(unitedtraders_aeron_rs_verif)]
+        let _verif = crate::verif_hook::enter(crate::verif_hook::AccessKind::CopyFrom, self.ptr as usize + offset as usize, length as usize, src_buffer.ptr as i64 + src_offset as i64, 0);
         self.bounds_check(offset, length);
         src_buffer.bounds_check(src_offset, length);
         unsafe {
@@ -279,20 +309,28 @@ impl AtomicBuffer {
     }
 
     pub fn as_mutable_slice(&mut self) -> &mut [u8] {
+        #[cfg(unitedtraders_aeron_rs_verif)]
+        let _verif = crate::verif_hook::enter(crate::verif_hook::AccessKind::RegionWrite, self.ptr as usize, self.len as usize, 0, 0);
         unsafe { slice::from_raw_parts_mut(self.ptr, self.len as usize) }
     }
 
     pub fn as_slice(&self) -> &[u8] {
+        #[cfg(unitedtraders_aeron_rs_verif)]
+        let _verif = crate::verif_hook::enter(crate::verif_hook::AccessKind::RegionRead, self.ptr as usize, self.len as usize, 0, 0);
         unsafe { slice::from_raw_parts(self.ptr, self.len as usize) }
     }
 
     pub fn as_sub_slice(&self, index: Index, len: Index) -> &[u8] {
+        #[cfg(unitedtraders_aeron_rs_verif)]
+        let _verif = crate::verif_hook::enter(crate::verif_hook::AccessKind::RegionRead, self.ptr as usize + index as usize, len as usize, 0, 0);
         self.bounds_check(index, len);
         unsafe { slice::from_raw_parts(self.at(index), len as usize) }
     }
 
     #[inline]
     pub fn get_string(&self, offset: Index) -> CString {
+        #[cfg(unitedtraders_aeron_rs_verif)]
+        let _verif = crate::verif_hook::enter(crate::verif_hook::AccessKind::RegionRead, self.ptr as usize + offset as usize, 4, 0, 0);
         self.bounds_check(offset, 4);
 
         // String in Aeron has first 4 bytes as length and rest "length" bytes is string body in ASCII
@@ -302,6 +340,8 @@ impl AtomicBuffer {
 
     #[inline]
     pub fn get_string_without_length(&self, offset: Index, length: Index) -> CString {
+        #[cfg(unitedtraders_aeron_rs_verif)]
+        let _verif = crate::verif_hook::enter(crate::verif_hook::AccessKind::RegionRead, self.ptr as usize + offset as usize, length as usize, 0, 0);
         self.bounds_check(offset, length);
 
         unsafe {
@@ -317,6 +357,8 @@ impl AtomicBuffer {
 
     #[inline]
     pub fn get_string_length(&self, offset: Index) -> Index {
+        #[cfg(unitedtraders_aeron_rs_verif)]
+        let _verif = crate::verif_hook::enter(crate::verif_hook::AccessKind::Get, self.ptr as usize + offset as usize, 4, 0, 0);
         self.bounds_check(offset, 4);
 
         self.get::<i32>(offset) as Index
@@ -325,6 +367,8 @@ impl AtomicBuffer {
     /// This function expects ASCII string WITHOUT trailing zero as its input.
     #[inline]
     pub fn put_string(&self, offset: Index, string: &[u8]) {
+        #[cfg(unitedtraders_aeron_rs_verif)]
+        let _verif = crate::verif_hook::enter(crate::verif_hook::AccessKind::RegionWrite, self.ptr as usize + offset as usize, string.len() + 4, 0, 0);
         self.bounds_check(offset, string.len() as Index + I32_SIZE);
 
         // String in Aeron has first 4 bytes as length and rest "length" bytes is string body
@@ -335,6 +379,8 @@ impl AtomicBuffer {
 
     #[inline]
     pub fn put_string_without_length(&self, offset: Index, string: &[u8]) -> Index {
+        #[cfg(unitedtraders_aeron_rs_verif)]
+        let _verif = crate::verif_hook::enter(crate::verif_hook::AccessKind::RegionWrite, self.ptr as usize + offset as usize, string.len() + 4, 0, 0);
         self.bounds_check(offset, string.len() as Index);
 
         self.put_bytes(offset + I32_SIZE, string);
@@ -351,6 +397,8 @@ impl AtomicBuffer {
      */
     #[allow(clippy::cast_ptr_alignment)]
     pub fn get_and_add_i64(&self, offset: Index, delta: i64) -> i64 {
+        #[cfg(unitedtraders_aeron_rs_verif)]
+        let _verif = crate::verif_hook::enter(crate::verif_hook::AccessKind::GetAndAddI64, self.ptr as usize + offset as usize, 8, delta, 0);
         self.bounds_check(offset, I64_SIZE);
         unsafe {
             let atomic_ptr = self.at(offset) as *const AtomicI64;
